@@ -120,6 +120,25 @@ let handle kind c =
       prop "relocation-invariant" (Printf.sprintf "same report with sentinel and pcs shifted: %S vs %S" (short r1.name) (short r2.name))
     else if r1.status <> r2.status then
       prop "relocation-invariant" (Printf.sprintf "same report with sentinel and pcs shifted: %s vs %s" r1.status r2.status)
+  | "uint" ->
+    let s = next_bytes c in
+    let st = next c in
+    let v = next_n c in
+    (match parse_uint0 s, st with
+     | None, "err" -> ()
+     | Some m, "ok" -> check_eq "parse-uint" tok_of_n m v
+     | None, _ -> diff "parse-uint" ~model:"err" ~impl:(st ^ " " ^ show_b s)
+     | Some _, _ -> diff "parse-uint" ~model:"ok" ~impl:(st ^ " " ^ show_b s))
+  | "sscan" ->
+    let l = next_bytes c in
+    let st = next c in
+    let v = next_n c in
+    if st = "panic" then prop "total" ("Sscanf panicked on " ^ show_b l)
+    else (match scan_sentinel l, st with
+        | None, "err" -> ()
+        | Some m, "ok" -> check_eq "scan-sentinel" tok_of_n m v
+        | None, _ -> diff "scan-sentinel" ~model:"err" ~impl:(st ^ " " ^ show_b l)
+        | Some _, _ -> diff "scan-sentinel" ~model:"ok" ~impl:(st ^ " " ^ show_b l))
   | k -> diff "unknown-case-kind" ~model:k ~impl:"-"
 
 let () = run_file Sys.argv.(1) handle
